@@ -49,8 +49,4 @@ Judge(p, pv, e) ==
 
 Fidelity(e) == IF ~HasLow(e) THEN "nolow" ELSE IF AsLow(e) THEN "same" ELSE "differs"
 
-(* laws over programs: filled in by FxLaws (C17) *)
-LawApplies(p, name) == FALSE
-LawShape(name, hist) == TRUE
-JudgeLaw(p, name, env) == "ok"
 =============================================================================
